@@ -8,11 +8,12 @@ content) must be the outcome of some sequential order of the calls that respects
 Instrumentation lives in this process only: the names `deque` and `threading` inside pysyncobj.fast_queue are
 replaced by scheduled versions while a case runs (restored afterwards); nothing in /repo is edited."""
 import itertools
+import os
 import sys
 import threading as _threading
 from collections import deque as _deque
 
-REPO = '/repo'
+REPO = os.environ.get('VERIF_REPO', '/repo')
 if REPO not in sys.path:
     sys.path.insert(0, REPO)
 
